@@ -1531,3 +1531,130 @@ fn verif_witness_search_gen_rejects() {
   }
   println!("WITNESS-SEARCH: no violating history found ({mutants} single-fault mutants of {programs_done} generated two-module programs, {} kinds of fault, all rejected with an error in their own module)", kinds.len());
 }
+
+// ---- damaged programs (C05): one token of a generated program deleted, doubled, exchanged with its neighbour or replaced by
+// another token of the program; most results are rejected, some still compile — the whole driver must neither panic nor hang
+fn tokens_of(text: &str) -> Vec<String> {
+  let chars = text.chars().collect::<Vec<_>>();
+  let mut out = Vec::new();
+  let mut i = 0;
+  while i < chars.len() {
+    let c = chars[i];
+    let start = i;
+    if c.is_whitespace() {
+      i += 1;
+      continue;
+    } else if c.is_alphanumeric() || c == '_' {
+      while i < chars.len() && (chars[i].is_alphanumeric() || chars[i] == '_') {
+        i += 1;
+      }
+    } else if c == '"' {
+      i += 1;
+      while i < chars.len() && chars[i] != '"' {
+        i += 1;
+      }
+      i = (i + 1).min(chars.len());
+    } else if i + 1 < chars.len() && ["->", "::", "==", "!=", "<=", ">=", "&&", "||"].contains(&chars[i..i + 2].iter().collect::<String>().as_str()) {
+      i += 2;
+    } else {
+      i += 1;
+    }
+    out.push(chars[start..i].iter().collect());
+  }
+  out
+}
+
+#[test]
+fn verif_witness_search_gen_nocrash() {
+  let seed = std::env::var("VERIF_SEED").ok().and_then(|s| s.parse::<u64>().ok()).unwrap_or(0);
+  let mut rng = Rng(0xA0761D6478BD642F ^ seed.wrapping_mul(0x2545F4914F6CDD1D));
+  let (n_programs, per_program) = (count_for_tier(4, 20), count_for_tier(45, 150));
+  let (mut programs_done, mut damaged, mut still_compiled) = (0, 0, 0);
+  std::panic::set_hook(Box::new(|_| {}));
+  while programs_done < n_programs {
+    let p = generate(&mut rng, false);
+    if expected_output(&p).is_none() {
+      continue;
+    }
+    programs_done += 1;
+    let text = format!("{REJECTS_IMPORTS}{REJECTS_DECLARATIONS}{}", program_text(&p));
+    let tokens = tokens_of(&text);
+    for _ in 0..per_program {
+      let at = rng.below(tokens.len() as u64 - 1) as usize;
+      let mut t = tokens.clone();
+      const SNIPPETS: [&str; 24] = ["/*", "/**", "*/", "/**/", "/***/", "//", "\u{00A0}", "\u{2003}", "é", "→", "\"", "\\", "#", "@", "`", "$", "'", "0x", "1e9", ".", "..", "2147483648", "-", "\t"];
+      let what = match rng.below(6) {
+        0 => {
+          t.remove(at);
+          "deleted"
+        }
+        4 => {
+          t.insert(at, SNIPPETS[rng.below(SNIPPETS.len() as u64) as usize].to_string());
+          "preceded by a stray piece of text"
+        }
+        5 => {
+          let piece = SNIPPETS[rng.below(SNIPPETS.len() as u64) as usize];
+          t[at] = format!("{}{piece}", t[at]);
+          "followed at once by a stray piece of text"
+        }
+        1 => {
+          let again = t[at].clone();
+          t.insert(at, again);
+          "doubled"
+        }
+        2 => {
+          t.swap(at, at + 1);
+          "exchanged with the next one"
+        }
+        _ => {
+          t[at] = tokens[rng.below(tokens.len() as u64) as usize].clone();
+          "replaced by another token of the program"
+        }
+      };
+      // now and then the damaged text sits on one long line behind two-byte characters, so that diagnostics must cut it
+      let mutant = if rng.below(8) == 0 { format!("/* {} */ {}", "é".repeat(100 + rng.below(60) as usize), t.join(" ")) } else { t.join(" ") };
+      damaged += 1;
+      let started = std::time::Instant::now();
+      let (sender, receiver) = std::sync::mpsc::channel();
+      let for_thread = mutant.clone();
+      std::thread::Builder::new().stack_size(64 << 20).spawn(move || {
+        let mutant = for_thread;
+        let outcome = std::panic::catch_unwind(|| {
+        let compiled = compile_with_lib(&mutant, None).is_ok();
+        // the other renderer of diagnostics
+        let heap = &mut Heap::new();
+        let mod_ref = heap.alloc_module_reference_from_string_vec(vec!["Demo".to_string()]);
+        let mut error_set = samlang_errors::ErrorSet::new();
+        let parsed = samlang_parser::parse_source_module_from_text(&mutant, mod_ref, heap, &mut error_set);
+        let _ = samlang_checker::type_check_sources(&HashMap::from([(mod_ref, parsed)]), &mut error_set);
+        let sources = HashMap::from([(mod_ref, mutant.clone())]);
+        for e in error_set.errors() {
+          let _ = e.to_ide_format(heap, &sources);
+        }
+        compiled
+        });
+        let _ = sender.send(outcome.map_err(|e| e.downcast_ref::<String>().cloned().or_else(|| e.downcast_ref::<&str>().map(|s| s.to_string())).unwrap_or_default()));
+      }).unwrap();
+      match receiver.recv_timeout(std::time::Duration::from_secs(45)) {
+        Err(_) => {
+          println!("WITNESS: the compiler does not terminate within 45 s on a generated program with token {at} (`{}`) {what}: {}", tokens[at], mutant);
+          return;
+        }
+        Ok(Err(message)) => {
+          println!("WITNESS: the compiler panicked ({}) on a generated program with token {at} (`{}`) {what}: {}", message.replace('\n', " "), tokens[at], mutant);
+          return;
+        }
+        Ok(Ok(compiled)) => {
+          if compiled {
+            still_compiled += 1;
+          }
+          if started.elapsed().as_secs() > 60 {
+            println!("WITNESS: the compiler needed {} s for a generated program with token {at} (`{}`) {what}: {}", started.elapsed().as_secs(), tokens[at], mutant);
+            return;
+          }
+        }
+      }
+    }
+  }
+  println!("WITNESS-SEARCH: no violating history found ({damaged} generated programs with one token deleted / doubled / exchanged / replaced or a stray piece of text (comment marks, non-ASCII white space and letters, quotes, odd numerals) put next to a token went through parsing, checking, both diagnostic renderers and compilation without a panic; {still_compiled} of them still compiled)");
+}
